@@ -7,16 +7,25 @@ from pyvc.speclib import uninterpreted
 from pyvc.values import *
 from spec.crc32 import crc32_signed_bytes
 
-_UF_CRC = z3.Function("spec_crc32_signed", z3.StringSort(), z3.IntSort())
+from pyvc.strings import UF_ENCODE
+
+# CRC-32 of a byte string as an uninterpreted function into [0, 2**32): the polynomial arithmetic is not
+# re-proved symbolically; zlib.crc32 is assumed to compute it (cross-checked natively against spec/crc32.py)
+UF_CRC32 = z3.Function("crc32_ieee", z3.StringSort(), z3.IntSort())
+
+
+def crc32_term(st, bytes_term):
+    t = UF_CRC32(bytes_term)
+    st.assume(z3.And(t >= 0, t < 2**32))
+    return t
 
 
 def _crc_sym(eng, st, args, kwargs, origin):
     (a,) = args
     if isinstance(a, VC):
         return [(st, VC(crc32_signed_bytes(a.py.encode())))]
-    t = _UF_CRC(S.to_str_term(a))
-    st.assume(z3.And(t >= -(2**31), t < 2**31))
-    return [(st, VInt(t))]
+    u = crc32_term(st, UF_ENCODE(S.to_str_term(a)))
+    return [(st, VInt(z3.If(u >= 2**31, u - 2**32, u)))]
 
 
 @uninterpreted(_crc_sym)
